@@ -32,6 +32,14 @@ def generate(rng, tier, i):
     if i % 4 == 3:
         d = gd.gen_die(rng, max_n=12, struct="empty")
         return {"cls": "grid", "die": c01._slim(d), "rows": rng.randint(1, 8), "cols": rng.randint(1, 8)}
+    if i % 20 == 6:
+        # an empty die whose aspect ratio exceeds the limit by a hair (1e-4 .. 4e-4 relative): it must still be cut
+        r = rng.choice(RS)
+        H = rng.choice([1.0, 2.5, 10.0, 0.4])
+        W = float(f"{H * r * (1 + rng.choice([1e-4, 2e-4, 4e-4])):.9g}")
+        if rng.random() < 0.5:
+            W, H = H, W
+        return {"cls": "split", "die": {"fam": "int", "W": W, "H": H, "regions": [], "fixed": {}, "struct": "just_above_limit"}, "steps": [[r, 1]]}
     d = gd.gen_die(rng, max_n=10)
     steps = [[rng.choice(RS), rng.choice([1, 1, 2, 3, 4, 5, 7, 8, 16, 17, 32, 64, rng.randint(1, 64)])] for _ in range(rng.choice([1, 1, 2, 3]))]
     return {"cls": "split", "die": c01._slim(d), "steps": steps}
